@@ -175,8 +175,20 @@ def check_extras(prog):
     a = [c for c in prog.fns.values() if c.kind == "Closure" and c.root == "jrsonnet_stdlib::sort::sort_identity"]
     b = [c for c in prog.fns.values() if c.kind == "Closure" and c.root == "jrsonnet_stdlib::sort::sort_keyf"]
 
-    def sig(c):
-        return sorted((t.get("res") or t.get("fn") or "") for bb, t in c.calls() if not c.is_cleanup(bb) and "drop" not in (t.get("fn") or ""))
+    def sig(c, depth=1):
+        # callees of the comparator closure; a local helper of sort.rs is expanded to its own callees (the comparator may be a
+        # shared function called from both closures)
+        out = []
+        for bb, t in c.calls():
+            if c.is_cleanup(bb) or "drop" in (t.get("fn") or ""):
+                continue
+            callee = t.get("res") or t.get("fn") or ""
+            g = prog.fns.get(callee)
+            if depth > 0 and g is not None and g.file.endswith("jrsonnet-stdlib/src/sort.rs") and g.kind != "Closure":
+                out.extend(sig(g, depth - 1))
+            else:
+                out.append(callee)
+        return sorted(out)
     ca = [sig(c) for c in a if any("evaluate_compare_op" in x for x in sig(c))]
     cb = [sig(c) for c in b if any("evaluate_compare_op" in x for x in sig(c))]
     key = "std.sort:comparator-siblings"
